@@ -236,7 +236,7 @@ def validate_traces(mod, constdefs, cfg_constants, traces, procs=16, timeout=360
             verdicts = {}
             for t_ in part:
                 verdicts[t_['id']] = dict(code=None, l=0, clause='', stepfail=[], stepooc=[])
-            for m in re.finditer(r'<<"VERDICT", "([^"]*)", (\d+), "(\w+)", "([^"]*)">>', r.out):
+            for m in re.finditer(r'<<\s*"VERDICT",\s*"([^"]*)",\s*(\d+),\s*"(\w+)",\s*"([^"]*)"\s*>>', r.out):
                 tid_, l_, code, clause = m.group(1), int(m.group(2)), m.group(3), m.group(4)
                 if code == 'stepfail':
                     verdicts[tid_]['stepfail'].append((l_, clause))
